@@ -14,6 +14,7 @@ import (
 	"sort"
 	"testing"
 
+	"github.com/New-JAMneration/JAM-Protocol/internal/types"
 	"github.com/New-JAMneration/JAM-Protocol/internal/verifdrv/vfd"
 )
 
@@ -326,6 +327,48 @@ func runCase(c map[string]any, out *vfd.Out) {
 			}
 			pcA = ProgramCounter(a.Pc)
 			pcB = ProgramCounter(b.Pc)
+		}
+	}
+}
+
+// ---- C04: invocation level (Psi_M / R): reported gas usage for limits up to 2^64-1 ----
+// case: {"id","prog", "limits":[[8]...]}  -> {"k":"invoke","prog","limit":[8],"res":"halt|panic|oog","used":[8],"gopanic"}
+func TestInvoke(t *testing.T) {
+	cases := vfd.ReadCases(vfd.Env("VF_CASES", "cases.ndjson"))
+	out := vfd.NewOut(vfd.Env("VF_OUT", "trace.ndjson"))
+	defer out.Close()
+	for _, c := range cases {
+		progJ := c["prog"].(map[string]any)
+		inner := buildBlob(progJ)
+		// standard program: E3(|o|) E3(|w|) E2(z) E3(s) o w E4(|c|) c   with empty o, w and no heap/stack
+		std := []byte{0, 0, 0, 0, 0, 0, 0, 0, 0, 0, 0}
+		std = append(std, byte(len(inner)), byte(len(inner)>>8), byte(len(inner)>>16), byte(len(inner)>>24))
+		std = append(std, inner...)
+		for _, lim := range c["limits"].([]any) {
+			limit := vfd.FromU64LE(lim)
+			rec := map[string]any{"k": "invoke", "id": c["id"], "prog": progJ, "limit": vfd.U64LE(limit), "gopanic": ""}
+			var r Psi_M_ReturnType
+			p, msg := vfd.Guard(func() {
+				r = Psi_M(StandardCodeFormat(append([]byte(nil), std...)), 0, types.Gas(limit), Argument{}, make(Omegas, 0), HostCallArgs{})
+			})
+			if p {
+				rec["res"], rec["used"], rec["gopanic"] = "gopanic", vfd.U64LE(0), msg
+			} else {
+				rec["used"] = vfd.U64LE(uint64(r.Gas))
+				switch v := r.ReasonOrBytes.(type) {
+				case ExitReasonType:
+					if v == OUT_OF_GAS {
+						rec["res"] = "oog"
+					} else {
+						rec["res"] = "panic"
+					}
+				case ExitReason:
+					rec["res"] = "panic"
+				default:
+					rec["res"] = "halt"
+				}
+			}
+			out.Emit(rec)
 		}
 	}
 }
